@@ -165,6 +165,15 @@ def _run_stages(st, p, work, fn_set):
     dd = _data(work, st.get("data", "d"), p.get("seed", 0))
     rn = st.get("run_name", "run")
     P = st.get("P", 1)
+    if st.get("rewrite"):
+        # the same data file name in the same directory, new content: "zeroerr" gives a data set on which every likelihood is
+        # non-finite (one quoted uncertainty is zero), so that the run ranks nothing
+        arr = np.loadtxt(dd + "/d.dat")
+        if st["rewrite"] == "zeroerr":
+            arr[0, 2] = 0.0
+        elif st["rewrite"] == "restore":
+            arr[0, 2] = arr[1, 2]
+        np.savetxt(dd + "/d.dat", arr)
     for sg in st.get("stages", list(stages.STAGES)):
         kw = dict(STAGE_KW[sg])
         kw.update(p.get("kwargs", {}).get(sg, {}))
